@@ -243,23 +243,59 @@ class Check(object):
         if not thm_names:
             ok_all = False
             self.obligations.append({'name': 'no theorems found', 'kind': 'theorem', 'ok': False, 'detail': ''})
-        # source gate
+        # source gate: every file in the import closure of the modules proved here and of the drivers used
         hits = []
-        for root in (os.path.join(LEAN, 'OdfModel'), os.path.join(LEAN, 'Drivers')):
-            for dp, dn, fn in os.walk(root):
-                for f in fn:
-                    if f.endswith('.lean'):
-                        with open(os.path.join(dp, f), encoding='utf-8') as fh:
-                            src = strip_lean_comments(fh.read())
-                        for mm in FORBIDDEN.finditer(src):
-                            hits.append('%s: %s' % (os.path.relpath(os.path.join(dp, f), LEAN), mm.group(0).strip()))
+        for path in sorted(self.import_closure(list(modules) + ['Drivers.' + self.driver_root(d) for d in drivers])):
+            with open(path, encoding='utf-8') as fh:
+                src = strip_lean_comments(fh.read())
+            for mm in FORBIDDEN.finditer(src):
+                hits.append('%s: %s' % (os.path.relpath(path, LEAN), mm.group(0).strip()))
+        self.extra_cov['gated_files'] = len(self.import_closure(list(modules)))
         self.obligations.append({'name': 'source gate (no sorry/admit/axiom/native_decide/bv_decide/implemented_by/unsafe/maxHeartbeats 0)',
                                  'kind': 'gate', 'ok': not hits, 'detail': '; '.join(hits[:5])})
         if hits:
             ok_all = False
+        if self.tier == 'thorough':
+            # independent re-check of the compiled .olean files (needs the library root to be built)
+            self.lake(['build', 'OdfModel'])
+            rc3, out3 = self.lake(['env', 'leanchecker'] + list(modules), timeout=3000)
+            self.checker_cmds.append('lake env leanchecker ' + ' '.join(modules))
+            self.obligations.append({'name': 'leanchecker re-check of ' + ', '.join(modules), 'kind': 'leanchecker', 'ok': rc3 == 0,
+                                     'detail': out3.strip()[-300:]})
+            if rc3 != 0:
+                ok_all = False
         if not ok_all:
             self.broken.append({'what': 'proof-audit', 'detail': [o for o in self.obligations if not o['ok']][:5]})
         return ok_all
+
+    def driver_root(self, exe):
+        """module root of a lean_exe of lakefile.toml (`root = "Drivers.Xml"` -> `Xml`)"""
+        try:
+            with open(os.path.join(LEAN, 'lakefile.toml')) as f:
+                txt = f.read()
+            m = re.search(r'name\s*=\s*"%s"\s*\n\s*root\s*=\s*"Drivers\.([A-Za-z0-9_]+)"' % re.escape(exe), txt)
+            return m.group(1) if m else exe
+        except Exception:
+            return exe
+
+    def import_closure(self, modules):
+        """paths of the project's own .lean files reachable through `import` from the given modules"""
+        seen = {}
+        todo = list(modules)
+        while todo:
+            m = todo.pop()
+            if m in seen or not (m.startswith('OdfModel') or m.startswith('Drivers')):
+                continue
+            path = os.path.join(LEAN, m.replace('.', '/') + '.lean')
+            if not os.path.exists(path):
+                continue
+            seen[m] = path
+            with open(path, encoding='utf-8') as f:
+                for line in f:
+                    mm = re.match(r'\s*(?:public\s+)?import\s+([A-Za-z0-9_.]+)', line)
+                    if mm:
+                        todo.append(mm.group(1))
+        return set(seen.values())
 
     def obligation(self, name, ok, detail='', kind='generated-table'):
         self.obligations.append({'name': name, 'kind': kind, 'ok': bool(ok), 'detail': detail})
